@@ -71,3 +71,39 @@ Theorem C07_efield_partial :
       quad) Et.
 Proof. exact @C07_efield_partial_l. Qed.
 Print Assumptions C07_efield_partial.
+
+(* Maxwell potentials (also the potential side of C02-type statements for RWG densities): the coefficients reach the
+   kernels as mult[e,i]*c[l2g[e,i]] (map_to_full_grid), the potentials are exactly the kernel sums over the
+   support's quadrature points, and they are exactly additive over partitions of the support *)
+Theorem C07_maxwell_potentials_kernel_sum :
+  forall (A : Type) (RO : ops A) (Hring : IsRing RO)
+         (g : geom) (s : space) (quad : list qpt) (kern : kernel) (supp : list nat)
+         (dist : vec3 A -> vec3 A -> A) (ik : A) (c : nat -> A) (pt : vec3 A) (d : nat),
+  NoDup supp -> d < 3 ->
+  comp (efield_potential RO g s quad kern supp dist ik (full_coeffs RO s supp c) pt) d =
+  sumf (o0 RO) (oadd RO) (fun e => sumf (o0 RO) (oadd RO) (fun q =>
+     omul RO (kern pt (ypt RO g e q) (vzero (o0 RO)) (vzero (o0 RO)))
+       (osub RO (omul RO ik (mx_density RO g s c e q d))
+          (omul RO (omul RO (omul RO (comp (vsub (osub RO) pt (ypt RO g e q)) d)
+                                     (osub RO (omul RO ik (dist pt (ypt RO g e q))) (o1 RO)))
+                            (mx_divdensity RO g s c e q))
+                   (oinv RO (omul RO (omul RO ik (dist pt (ypt RO g e q))) (dist pt (ypt RO g e q))))))) quad) supp
+  /\
+  comp (mfield_potential RO g s quad kern supp dist ik (full_coeffs RO s supp c) pt) d =
+  sumf (o0 RO) (oadd RO) (fun e => sumf (o0 RO) (oadd RO) (fun q =>
+     comp (cross3 (omul RO) (osub RO) (vsub (osub RO) pt (ypt RO g e q))
+        (vscal (omul RO)
+           (omul RO (omul RO (kern pt (ypt RO g e q) (vzero (o0 RO)) (vzero (o0 RO)))
+                             (osub RO (omul RO ik (dist pt (ypt RO g e q))) (o1 RO)))
+                    (oinv RO (omul RO (dist pt (ypt RO g e q)) (dist pt (ypt RO g e q)))))
+           (mkv (mx_density RO g s c e q)))) d) quad) supp
+  /\
+  (forall (x : nat -> A) (inseg : nat -> bool),
+     comp (efield_potential RO g s quad kern supp dist ik x pt) d =
+     oadd RO (comp (efield_potential RO g s quad kern (filter inseg supp) dist ik x pt) d)
+             (comp (efield_potential RO g s quad kern (filter (fun e => negb (inseg e)) supp) dist ik x pt) d) /\
+     comp (mfield_potential RO g s quad kern supp dist ik x pt) d =
+     oadd RO (comp (mfield_potential RO g s quad kern (filter inseg supp) dist ik x pt) d)
+             (comp (mfield_potential RO g s quad kern (filter (fun e => negb (inseg e)) supp) dist ik x pt) d)).
+Proof. exact @C07_maxwell_potentials_kernel_sum_l. Qed.
+Print Assumptions C07_maxwell_potentials_kernel_sum.
